@@ -44,7 +44,7 @@ def do_action(psutil, o, a):
 
 # events that only ask: whatever the circumstances (permission faults included) they cannot change which held objects are
 # equal, nor any hash
-PURE = ("q", "create_time", "boot_time", "is_running", "os_enter", "os_exit", "iter", "sys")
+PURE = ("q", "create_time", "boot_time", "is_running", "os_enter", "os_exit", "iter", "sys", "wait")
 # other system-wide functions that read the same kernel tables as the identity code (/proc/stat ...)
 SYS_CALLS = ("cpu_stats", "cpu_times", "cpu_count")
 
@@ -105,7 +105,7 @@ def mk_popen(ps, pid):
 class Cfg:
     def __init__(self, seed=0, slots=("A", "B"), max_objs=2, actions=(), clock=False,
                  queries=("name",), numeric=False, use_iter=True, use_exit=True, max_denies=0, max_faults=0, create_time_event=False, sys_calls=(), btime0=None, oneshot=False, popen=False,
-                 own_pid=None, iterhold=False, comm=None):
+                 own_pid=None, iterhold=False, comm=None, use_wait=False, mid=0):
         self.seed = seed
         base = 1000 + (seed % 9) * 13
         self.pid = {"A": base, "B": base + 7, "C": base + 19}
@@ -118,6 +118,8 @@ class Cfg:
         self.use_iter = use_iter
         self.use_exit = use_exit
         self.popen = popen                # held objects are psutil.Popen instances (over a stub subprocess)
+        self.use_wait = use_wait          # event: wait(timeout=0) on a held object (its answer is C15's business; what it leaves behind is ours)
+        self.mid = mid                    # is_running() with ONE process-table event landing before its k-th kernel access, k < mid
         self.iterhold = iterhold          # event: run process_iter() and hold the object it yields for a slot
         self.comm = comm or {}            # slot -> process name bytes
         if own_pid:
@@ -191,6 +193,19 @@ class Exec:
         for i in range(len(self.objs)):
             for q in c.queries:
                 ev.append(["q", i, q])
+        if c.mid:
+            for i, o in enumerate(self.objs):
+                for s in c.slots:
+                    if c.pid[s] != o.pid:
+                        continue
+                    p = w.procs.get(o.pid)
+                    for e in (("spawn", "spawnZ") if p is None else (("recycle", "die") if p.zombie else ("recycle", "die", "exit"))):
+                        for k_ in range(c.mid):
+                            ev.append(["mid", i, k_, e, s])
+        if c.use_wait:
+            for i, o in enumerate(self.objs):
+                if o._exitcode is self.psutil._SENTINEL:
+                    ev.append(["wait", i])
         if c.oneshot and self.objs:
             ev.append(["os_exit", 0] if 0 in self.cms else ["os_enter", 0])
         if c.use_iter:
@@ -301,6 +316,48 @@ class Exec:
             lab = "q:%s:%s" % (q, "ok" if out[0] == "ok" else out[1])
             if out[0] == "exc" and out[1] not in ("NoSuchProcess", "ZombieProcess", "AccessDenied"):
                 self.viol("query-leak:%s:%s" % (q, out[1]), "%s() raised %r" % (q, out))
+        elif k == "mid":
+            i, k_, e, s_ = ev[1:]
+            pid = c.pid[s_]
+            seen = []
+
+            def hook(world, kind, subj, pid_):
+                seen.append(kind)
+                if len(seen) - 1 != k_:
+                    return
+                world.hook = None
+                if e in ("die", "recycle"):
+                    world.vanish(pid)
+                if e == "exit":
+                    world.exit(pid)
+                if e in ("spawn", "spawnZ", "recycle"):
+                    world.tick(1)
+                    world.spawn(pid, ppid=1, comm=c.comm.get(s_, b"p" + s_.encode()))
+                if e == "spawnZ":
+                    world.exit(pid)
+                seen.append("applied")
+            exp0 = self.ident(i)
+            w.hook = hook
+            try:
+                out = outcome(self.objs[i].is_running)
+            finally:
+                w.hook = None
+            exp1 = self.ident(i)
+            landed = "applied" in seen
+            lab = "mid:%s:%s:%s" % (e, "landed" if landed else "late", out[1])
+            if self.ndeny or self.nfault:
+                pass
+            elif out[0] != "ok" or out[1] not in (exp0, exp1):
+                self.viol("mid-call:%s:is_running:%s-expected-%s" % (e, out[1], exp1),
+                          "is_running() -> %r while %r happened before kernel access %d of the call; the object's process was %s in the "
+                          "table before the call and is %s after it" % (out, e, k_, "still" if exp0 else "not", "still" if exp1 else "not"))
+            if out[0] == "ok" and out[1] is False:
+                self.ran_false[i] = True
+        elif k == "wait":
+            out = outcome(self.objs[ev[1]].wait, 0)
+            lab = "wait:%s" % ("ok" if out[0] == "ok" else out[1])
+            if out[0] == "exc" and out[1] not in ("TimeoutExpired", "NoSuchProcess"):
+                self.viol("wait-leak:%s" % out[1], "wait(0) raised %r" % (out,))
         elif k == "iter":
             out = outcome(lambda: [p.pid for p in ps.process_iter()])
             lab = "iter:%s" % (out[0] if out[0] == "ok" else out[1])
@@ -347,6 +404,8 @@ class Exec:
             raise AssertionError(ev)
         if k != "act":
             for e in w.effects[n0:]:
+                if k == "wait" and e[0] == "kill" and tuple(e[2]) == (0,):
+                    continue      # (the existence probe of the polling loop: signal 0 delivers nothing)
                 self.viol("effect-from-%s" % k, "event %r delivered %r" % (ev, e))
         self.label = lab
         if before is not None:
